@@ -129,13 +129,17 @@ SeekOutcomes(fs, lvl, t) ==
     IF lvl = "file" THEN FileSeekOutcomes(fs[1], t) ELSE ReaderSeekOutcomes(fs, t)
 
 \* ------------------------------------------------------------------ actions
+\* `files` and `level` are parameters of a behaviour, not state of the reader:
+\* no action below mentions files' or level'.  The enclosing module says how
+\* they are chosen and that they stay fixed (QLogFileProps: Pick / Run; the
+\* trace specs: the current "file" record).  They are variables only so that
+\* one TLC run can range over all logs.
 Reply(op, arg, res, line) == [op |-> op, arg |-> arg, res |-> res, line |-> line]
 
 \* SeekStart: position at the newest end of the whole log.
 SeekStart ==
     /\ cur' = N
     /\ out' = Reply("start", 0, "ok", 0)
-    /\ UNCHANGED <<files, level>>
 
 \* ReadNext: return the line under the cursor and move to the next older one;
 \* at the end report eof and stay there.  Successive reads therefore return
@@ -145,21 +149,18 @@ ReadNext ==
     /\ IF cur = 0
          THEN cur' = 0 /\ out' = Reply("read", 0, "eof", 0)
          ELSE cur' = cur - 1 /\ out' = Reply("read", 0, "ok", cur)
-    /\ UNCHANGED <<files, level>>
 
 \* SeekTS to a stored timestamp: the next ReadNext returns that entry.
 SeekFound(t) ==
     /\ IsPresent(All, t)
     /\ cur' = Below(All, t) + 1
     /\ out' = Reply("seek", t, "ok", 0)
-    /\ UNCHANGED <<files, level>>
 
 \* SeekTS to an absent timestamp, reported as an error of class e.
 SeekAbsentError(t, e) ==
     /\ Err(e) \in SeekOutcomes(files, level, t)
     /\ cur' \in 0..N                 \* any proper cursor, see SeekOutcomes
     /\ out' = Reply("seek", t, e, 0)
-    /\ UNCHANGED <<files, level>>
 
 \* The documented behaviour of qLogReader.seekTS: "Just seek to the start
 \* then.  timestamp is probably between the end of the previous one and the
@@ -170,7 +171,6 @@ SeekTooLateFallsBackToStart(t) ==
     /\ FallbackOutcome(All) \in SeekOutcomes(files, level, t)
     /\ cur' = N
     /\ out' = Reply("seek", t, "ok", 0)
-    /\ UNCHANGED <<files, level>>
 
 ErrClasses == {"tooEarly", "tooLate", "notFound"}
 
